@@ -50,6 +50,7 @@ type FuncContract struct {
 	Ghosts   []Param
 	Requires []Clause
 	Ensures  []Clause
+	AtReturn []Clause // over locals at successful returns
 	Loops    map[int]*LoopContract
 	Flags    map[string]bool
 	Binds    []Bind
@@ -130,7 +131,7 @@ var (
 )
 
 var clauseKeywords = map[string]bool{"func": true, "spec": true, "lemma": true, "property": true, "ghost": true, "requires": true,
-	"ensures": true, "loop": true, "invariant": true, "decreases": true, "flags": true, "bind": true, "callsite": true, "let": true, "hint": true, "noread": true, "cache": true, "mustread": true, "global": true, "fresh": true, "split": true, "step": true}
+	"ensures": true, "loop": true, "invariant": true, "decreases": true, "flags": true, "bind": true, "callsite": true, "let": true, "hint": true, "noread": true, "cache": true, "mustread": true, "global": true, "fresh": true, "split": true, "step": true, "atreturn": true}
 
 func parseParams(s string) ([]Param, error) {
 	s = strings.TrimSpace(s)
@@ -325,6 +326,17 @@ func (cs *Contracts) ParseFile(path, pkgName string) error {
 			default:
 				return fail(l, "%s outside func/lemma", kw)
 			}
+			curLoop = nil
+		case "atreturn":
+			// holds over the locals in scope at every successful return (last result literally nil)
+			c, err := mkClause(l, rest)
+			if err != nil {
+				return err
+			}
+			if curF == nil {
+				return fail(l, "atreturn outside func")
+			}
+			curF.AtReturn = append(curF.AtReturn, c)
 			curLoop = nil
 		case "loop":
 			m := reLoopHdr.FindStringSubmatch(t)
